@@ -303,6 +303,14 @@ func run(ctx *Ctx) *Result {
 	defer os.RemoveAll(workDir)
 	lean := newLeanTie(ctx, res)
 	defer lean.close()
+	droppedIgn, addedIgn := loadIgnored(ctx.Repo)
+	res.CountN("ignored-entries-of-command-table", len(ignored))
+	for _, e := range droppedIgn {
+		res.Count("ignored-entry-missing-in-tree-under-test:" + e)
+	}
+	for _, e := range addedIgn {
+		res.Count("ignored-entry-not-in-snapshot:" + e)
+	}
 
 	runCase := func(c cfgCase) {
 		if c.dev == nil {
@@ -364,6 +372,12 @@ func run(ctx *Ctx) *Result {
 		dupPeer := dupPeerInTarget(c.spoc)
 		sharedMap := mapSharedWithUnknownIntf(c.dev, c.spoc, managed)
 		repointed := false
+		hasLocalUser := false
+		for _, o := range c.dev.kindObjects("user") {
+			if c.dev.localUser(o.name) {
+				hasLocalUser = true
+			}
+		}
 		sig := func(pred string, extra ...string) map[string]any {
 			m := map[string]any{"frag": "vpn", "pred": pred}
 			if dupPeer {
@@ -374,6 +388,9 @@ func run(ctx *Ctx) *Result {
 			}
 			if repointed {
 				m["rule_repointed_to_other_certificate_map"] = true
+			}
+			if hasLocalUser {
+				m["local_user_with_password_on_device"] = true
 			}
 			for i := 0; i+1 < len(extra); i += 2 {
 				m[extra[i]] = extra[i+1]
@@ -402,7 +419,17 @@ func run(ctx *Ctx) *Result {
 		ex := &executor{d: c.dev.clone()}
 		var states []*vdev
 		skipped := false
+		ign0 := c.dev.ignoredLines()
+		if len(ign0) > 0 {
+			res.Count("device-with-ignored-lines")
+		}
 		for i, cmd := range cmds {
+			if prop == "C07" && ex.cur != nil {
+				// lines the command table marks as ignored (pre-shared keys, keepalive, webvpn sub-block) are not modelled: hands off
+				if w := strings.Fields(strings.TrimPrefix(cmd, "no ")); len(w) > 0 && cmd != "exit" && ignoredSub(ex.mode, strings.Join(w, " ")) {
+					res.Fail(sig("ignored_line_touched"), fmt.Sprintf("command %d %q in mode of `%s` touches a line the tool does not model\nscript:\n%s", i, cmd, ex.cur.Head, out), c)
+				}
+			}
 			if repointedRule(ex.d, ex.mode, strings.Fields(cmd)) {
 				repointed = true
 			}
@@ -515,6 +542,19 @@ func run(ctx *Ctx) *Result {
 			if len(shared) > 0 {
 				res.Count("c07:shared-object-cases")
 			}
+			ign1 := final.ignoredLines()
+			for head, l0 := range ign0 {
+				o, _ := c.dev.findHead(head).defines()
+				if len(final.blocksOf(o)) == 0 {
+					res.Count("c07:object-with-ignored-lines-deleted-as-a-whole")
+					continue
+				}
+				res.Count("c07:ignored-lines-compared")
+				if strings.Join(l0, "\n") != strings.Join(ign1[head], "\n") {
+					res.Fail(sig("ignored_line_touched"), fmt.Sprintf("unmodelled lines of `%s` differ after the script:\n%s\n-- before\n%s\n-- script\n%s",
+						head, strings.Join(ign1[head], "\n"), strings.Join(l0, "\n"), out), c)
+				}
+			}
 			res.CountN("c07:unmanaged-objects", len(uSet))
 		}
 		if prop == "C10" {
@@ -587,6 +627,14 @@ func run(ctx *Ctx) *Result {
 			b := g.genTarget()
 			a, note := g.genDevice(b)
 			c = cfgCase{Dev: a.print(), Spoc: b.print(), Note: note, dev: a, spoc: b}
+		}
+		if i%2 == 0 && g.r.Chance(15) {
+			c.Note = append(c.Note, g.addLocalUser(c.dev, c.spoc)...)
+			c.Dev = c.dev.print()
+		}
+		if i%2 == 0 || i%8 == 1 {
+			c.Note = append(c.Note, g.sprinkleIgnored(c.dev)...)
+			c.Dev = c.dev.print()
 		}
 		runCase(c)
 	}
